@@ -788,7 +788,7 @@ func (i *Interp) registerReflect() {
 		mt := v.t.Underlying().(*types.Map)
 		out := []Value{}
 		if m != nil {
-			for _, k := range m.snapshotKeys(i.mapReverse) {
+			for _, k := range m.snapshotKeys(i.nextMapOrder()) {
 				out = append(out, i.rv(mt.Key(), k))
 			}
 		}
@@ -798,7 +798,7 @@ func (i *Interp) registerReflect() {
 		m := v.get().(*MapObj)
 		it := &mapIter{m: m}
 		if m != nil {
-			it.keys = m.snapshotKeys(i.mapReverse)
+			it.keys = m.snapshotKeys(i.nextMapOrder())
 		}
 		// *reflect.MapIter is modelled as a pointer to a cell holding the iterator object
 		return newCell(&mapIterObj{it: it, m: v})
